@@ -629,6 +629,15 @@ func (p *Parser) parseReturningColumns() ([]ast.Expression, error) {
 			if err != nil {
 				return nil, fmt.Errorf("failed to parse RETURNING column: %w", err)
 			}
+			// optional output name: RETURNING expr AS alias
+			if p.isType(models.TokenTypeAs) {
+				p.advance() // Consume AS
+				if !p.isIdentifier() {
+					return nil, p.expectedError("alias name after AS")
+				}
+				expr = &ast.AliasedExpression{Expr: expr, Alias: p.currentToken.Literal}
+				p.advance()
+			}
 			columns = append(columns, expr)
 		}
 
